@@ -23,12 +23,13 @@
         for those (a) and (b) still hold (Example C13_prefixed_string_records_a_later_rune), and a plain
         'string' cannot be told apart from them by the item alone.
    (e): a position names at most one non-EOF token of a result (offsets strictly increase by index).
+   (f): a (line, column) pair names at most one rune of the input and at most one non-EOF token.
    (d): the parser side is a generated inventory (Gen/PosMessages.v), see Lexer/PosMessagesCheck.v and the
         header of /verif/translator/cmd/posmsggen/main.go for the argument; the implementation-side
         oracle is /verif/harness/cmd/posmsg. *)
 From Coq Require Import List NArith Bool Sorted.
 From DC Require Import Base.Utf8 Base.Unicode Base.Item Gen.TokenTable Gen.PosMessages
-  Lexer.LexerModel Lexer.LexerPosSpec Lexer.LexerPos Lexer.LexerPosUnique Lexer.PosMessagesCheck.
+  Lexer.LexerModel Lexer.LexerPosSpec Lexer.LexerPos Lexer.LexerPosUnique Lexer.LexerPosLineCol Lexer.PosMessagesCheck.
 Import ListNotations.
 Local Open Scope N_scope.
 
@@ -88,6 +89,23 @@ Theorem C13_e_position_names_one_token : forall (bs : list N) (pre : list item) 
   (forall m n i j, nth_error pre m = Some i -> nth_error pre n = Some j -> it_pos i = it_pos j -> m = n).
 Proof. exact tokenize_position_names_one_token. Qed.
 Print Assumptions C13_e_position_names_one_token.
+
+(* (f) what an error message actually prints is the pair (line, column), not the offset: in the independent
+       specification a (line, column) pair designates at most one rune of the input, and therefore at most
+       one non-EOF token of a Tokenize result -- "line L, column C" is never ambiguous. *)
+Theorem C13_f_line_and_column_name_one_rune : forall (bs : list N) (off1 off2 : N) (p1 p2 : pos),
+  pos_of_rune_end bs off1 = Some p1 -> pos_of_rune_end bs off2 = Some p2 ->
+  p_line p1 = p_line p2 -> p_col p1 = p_col p2 -> off1 = off2.
+Proof. exact line_col_names_one_rune. Qed.
+Print Assumptions C13_f_line_and_column_name_one_rune.
+
+Theorem C13_f_line_and_column_name_one_token : forall (bs : list N) (pre : list item) (e : item),
+  tokenize bs = Some (pre ++ [e]) ->
+  Forall (fun i => it_tok i <> T_EOF) pre ->
+  forall m n i j, nth_error pre m = Some i -> nth_error pre n = Some j ->
+    p_line (it_pos i) = p_line (it_pos j) -> p_col (it_pos i) = p_col (it_pos j) -> m = n.
+Proof. exact tokenize_line_col_names_one_token. Qed.
+Print Assumptions C13_f_line_and_column_name_one_token.
 
 (* (d) every message of package parser that carries "line %d, column %d" prints X.Pos.Line, X.Pos.Column
        of one token register X; the registers only ever hold results of lexer.NextToken(). *)
